@@ -748,7 +748,15 @@ impl C03 {
                         J::obj().set("input", show_input(input)).set("panic", J::s(p.short())).set("origin", J::s(origin)),
                     );
                 }
-                Ok(Err(_)) => {
+                Ok(Err(e)) => {
+                    // the error is a value like any other: it can be shown and converted
+                    if let Err(p) = guard(|| (format!("{} / {:?}", e, e), xot::Error::from(e.clone()).to_string())) {
+                        ctx.violation(
+                            "formatting a ParseError panicked",
+                            format!("C03/{}/panic-in-error-display/{}", ep.name(), p.sig()),
+                            J::obj().set("input", show_input(input)).set("panic", J::s(p.short())),
+                        );
+                    }
                     ctx.count(&format!("rejected.{}", origin));
                     self.no_state_leak(ctx, &mut xot, *ep, input, origin);
                 }
